@@ -18,7 +18,7 @@ otherwise the site needs a reviewed reason (reviewed/signpair.tsv).  No jiff cod
 import re
 from . import mir
 from .absint import Analyzer, AV
-from .term import Terms, walk
+from .term import Terms, walk, show
 from .report import load_tsv
 from .e1 import norm_key
 
@@ -622,4 +622,123 @@ def run_truncsplit(ctx, rep, cfg="Q", rule="TRUNC-SPLIT", floor=2):
                               "rejected (its floor is minimum - 1)", loc)
             else:
                 rep.ok(rule, key, how="Euclidean split handed to the normalising constructor unchecked", loc=loc)
+    rep.floor(rule + " sites", n, floor)
+
+
+# ---------------------------------------------------------------------------------------------------------------------
+# MIN-PAIR: the one pair that is sign-consistent and still not an instant
+
+def run_minpair(ctx, rep, cfg="Q", rule="MIN-PAIR", floor=9):
+    """Timestamp::MIN is (MIN seconds, 0 ns): the pair (MIN seconds, negative nanoseconds) is sign-consistent, so SIGN-PAIR accepts it,
+    but it denotes an instant below the minimum.  Every function that assembles a Timestamp has to exclude it."""
+    from .guards import strip_not
+    reviewed = load_tsv("signpair")
+    rep.rule(rule, "every function that builds a `Timestamp { second, nanosecond }` from non-constant parts excludes the pair (minimal "
+                   "second, negative nanosecond), an instant below Timestamp::MIN that both components' own range checks admit: "
+                   "either the nanosecond operand is the constant 0, or the function tests `second == <constant>` and, on the "
+                   "true edge of that test, `nanosecond < 0` on exactly the terms it stores, and the true edge of the second test "
+                   "cannot reach a successful return (it panics or returns Err); otherwise a reviewed reason says why the pair "
+                   "cannot arise. A comparison of whole instants built with as_nanosecond_ranged() does not count: that function "
+                   "clamps exactly this pair to Timestamp::MIN")
+    prog = ctx.prog(cfg)
+    n = 0
+    for f in sorted(prog.fns.values(), key=lambda f: f.key):
+        if f.crate != "jiff":
+            continue
+        aggs = [(bi, si, s) for bi, b in enumerate(f.blocks) for si, s in enumerate(b["st"])
+                if s["s"] == "=" and s["rv"]["k"] == "agg" and s["rv"].get("adt") == "timestamp::Timestamp"]
+        if not aggs:
+            continue
+        T = Terms(f)
+        cfg_ = mir.CFG(f)
+        # success blocks: assignments of the return place that are not an Err / residual
+        success = set()
+        for bi, b in enumerate(f.blocks):
+            for s in b["st"]:
+                if s["s"] == "=" and s["lhs"]["l"] == 0 and not s["lhs"].get("p"):
+                    rv = s["rv"]
+                    if rv["k"] == "agg" and rv.get("variant") in ("Err", "None"):
+                        continue
+                    success.add(bi)
+            t = b["term"]
+            if t["t"] == "call" and t.get("dest") is not None and t["dest"]["l"] == 0 and not t["dest"].get("p") and \
+                    not (t.get("path", "").endswith("::from_residual") or "FromResidual" in t.get("path", "")):
+                success.add(bi)
+        sw = []
+        for bi, b in enumerate(f.blocks):
+            t = b["term"]
+            if t["t"] == "switch" and t.get("op_ty") == "bool" and bi in cfg_.reachable():
+                c = T.operand(t["op"], 0, (bi, "term"))
+                c2, truth = strip_not(c, True)
+                vals = list(t["vals"])
+                if vals == [0]:
+                    tru, fal = t["otherwise"], t["targets"][0]
+                elif vals == [1]:
+                    tru, fal = t["targets"][0], t["otherwise"]
+                else:
+                    continue
+                if truth is False:
+                    tru, fal = fal, tru
+                sw.append((bi, c2, tru, fal))
+
+        def cmp_parts(c, names, ops):
+            if c[0] == "call" and c[1].rsplit("::", 1)[-1] in names and len(c[2]) == 2:
+                return c[2][0], c[2][1]
+            if c[0] == "bin" and c[1] in ops:
+                return c[2], c[3]
+            return None
+
+        def is_zero(t_):
+            return t_ == ("const", 0) or (t_[0] == "call" and t_[1].rsplit("::", 1)[-1] in ("C", "C128", "N") and (not t_[2] or t_[2][0] == ("const", 0)))
+
+        def is_const(t_):
+            return t_[0] == "const" or (t_[0] == "call" and t_[1].rsplit("::", 1)[-1] in ("C", "N", "MIN_SELF"))
+
+        ords = 0
+        for (bi, si, s) in aggs:
+            ords += 1
+            n += 1
+            key = norm_key("%s | Timestamp{..} min#%d" % (f.key, ords))
+            loc = "%s:%s" % (f.file, s.get("ln"))
+            fields = dict(zip(s["rv"]["fields"], s["rv"]["ops"]))
+            S = T.operand(fields["second"], pos=(bi, si))
+            N = T.operand(fields["nanosecond"], pos=(bi, si))
+            if is_zero(N):
+                rep.ok(rule, key, how="the nanosecond is the constant 0", loc=loc, nontrivial=False)
+                continue
+            found = None
+            for (b1, c1, t1, _f1) in sw:
+                p1 = cmp_parts(c1, ("eq",), ("Eq",))
+                if not p1:
+                    continue
+                a1, k1 = p1 if is_const(p1[1]) else (p1[1], p1[0])
+                if not is_const(k1) or is_zero(k1):
+                    continue
+                for (b2, c2, t2, _f2) in sw:
+                    p2 = cmp_parts(c2, ("lt",), ("Lt",))
+                    if not p2 or not is_zero(p2[1]):
+                        continue
+                    if not (b2 == t1 or cfg_.can_reach(t1, b2)):
+                        continue
+                    if any(t2 == sb or cfg_.can_reach(t2, sb) for sb in success):
+                        continue
+                    found = (a1, p2[0], b1, b2)
+                    if a1 == S and p2[0] == N:
+                        break
+                if found and found[0] == S and found[1] == N:
+                    break
+            if found and found[0] == S and found[1] == N:
+                rep.ok(rule, key, how="guarded: second == <const> and nanosecond < 0 leave the function without success (blocks %d, %d)" % (found[2], found[3]), loc=loc)
+            elif found and (S == found[0] or any(x == found[0] for x in walk(S))) and (N == found[1] or any(x == found[1] for x in walk(N))):
+                rep.ok(rule, key, how="guarded on the inputs the stored pair is computed from (blocks %d, %d)" % (found[2], found[3]), loc=loc)
+            elif len(f.get("params") or []) == 1 and re.match(r"^util::rangeint::ri(64|128)<\{\s*UnixSeconds::MIN \* (MILLIS|MICROS|NANOS)_PER_SECOND\.bound\(\)\s*\},", f["params"][0]) \
+                    and any(isinstance(x, tuple) and x and x[0] == "call" and x[1].endswith("::div_ceil") for x in walk(S)) \
+                    and any(isinstance(x, tuple) and x and x[0] == "call" and x[1].endswith("::rem_ceil") for x in walk(N)):
+                rep.ok(rule, key, how="second = x / unit and nanosecond from x % unit (truncating) of a parameter whose type's lower bound is "
+                       "UnixSeconds::MIN * unit: the minimal second is reached only by the bound itself, whose remainder is 0", loc=loc)
+            else:
+                rep.classify(rule, key, reviewed, loc=loc, detail="the pair stored here (second = %s, nanosecond = %s) is not excluded from being (minimal second, negative "
+                              "nanosecond): no test `second == <constant>` followed on its true edge by `nanosecond < 0` on these terms leaves "
+                              "the function without success, so an instant up to one second below Timestamp::MIN can be returned as Ok"
+                              % (show(S, maxd=3)[:80], show(N, maxd=3)[:80]))
     rep.floor(rule + " sites", n, floor)
